@@ -46,6 +46,10 @@ package stdlib
 //@ schema rr_small(N=Word16, bytes=2)
 //@ schema rr_small(N=Word32, bytes=4)
 //@ schema rr_small(N=Word64, bytes=8)
+//@ schema rr_big(N=UInt128, bytes=16, bits=128)
+//@ schema rr_big(N=UInt256, bytes=32, bits=256)
+//@ schema rr_big(N=Word128, bytes=16, bits=128)
+//@ schema rr_big(N=Word256, bytes=32, bits=256)
 
 // Uniformity: with mask = 2^k - 1 and n = ceil(k/8) drawn bytes, B -> (B & mask, B >> k) is a bijection from
 // [0, 2^(8n)) onto [0, mask] x [0, 2^(8n-k)): every value v <= mask has exactly 2^(8n-k) preimages B with
@@ -57,3 +61,6 @@ package stdlib
 //@ theorem[C47] T_mask_split_surjective(v uint64, h uint64, k uint64, n uint64) = lenok(k, n) && v <= maskk(k) && h < (1 << (8 * n - k)) ==> indraw(v | (h << k), n) && ((v | (h << k)) & maskk(k)) == v && ((v | (h << k)) >> k) == h
 // the mask and byte count the contracts speak of (maskof, bytelen) are those of the bit length k of m-1
 //@ theorem[C47] T_maskof_is_bitlen_mask(x uint64, k uint64) = k <= 64 && x <= maskk(k) && (k > 0 ==> (x >> (k - 1)) != 0) ==> maskof(x) == maskk(k) && 8 * bytelen(x) >= k && 8 * bytelen(x) < k + 8
+// the same for the math/big path, for any modulus P = 2^k and any number Q = 2^(8n-k) of high parts
+//@ theorem[C47] T_split_injective(B1, B2, P) = P > 0 && B1 >= 0 && B2 >= 0 && emod(B1, P) == emod(B2, P) && ediv(B1, P) == ediv(B2, P) ==> B1 == B2
+//@ theorem[C47] T_split_surjective(v, h, P, Q) = P > 0 && Q > 0 && 0 <= v && v < P && 0 <= h && h < Q ==> 0 <= v + h * P && v + h * P < P * Q && emod(v + h * P, P) == v && ediv(v + h * P, P) == h
